@@ -42,6 +42,9 @@ type Chan struct {
 	// number of goroutines currently blocked receiving on this channel
 	recvWaiters int
 	elem        types.Type
+	// always: a stub channel that can deliver a value whenever a receiver asks
+	// (back-off tickers: "ticks whenever the scheduler picks it")
+	always func() value
 }
 
 type sendReq struct {
@@ -304,7 +307,7 @@ func (in *Interp) killGoroutines() {
 // ---------- channels ----------
 
 func (c *Chan) canRecv() bool {
-	return len(c.buf) > 0 || len(c.sendq) > 0 || c.closed
+	return len(c.buf) > 0 || len(c.sendq) > 0 || c.closed || c.always != nil
 }
 
 func (c *Chan) canSend() bool {
@@ -338,6 +341,9 @@ func (in *Interp) chanSend(fr *frame, c *Chan, v value) {
 }
 
 func (c *Chan) take() value {
+	if c.always != nil && len(c.buf) == 0 && len(c.sendq) == 0 {
+		return c.always()
+	}
 	if len(c.buf) > 0 {
 		v := c.buf[0]
 		c.buf = c.buf[1:]
@@ -367,7 +373,7 @@ func (in *Interp) chanRecv(fr *frame, c *Chan, commaOk bool, elem types.Type) va
 	}
 	var v value
 	ok := true
-	if len(c.buf) > 0 || len(c.sendq) > 0 {
+	if len(c.buf) > 0 || len(c.sendq) > 0 || (c.always != nil && !c.closed) {
 		v = c.take()
 	} else {
 		v = in.zero(elem)
@@ -466,7 +472,7 @@ func (in *Interp) selectStmt(fr *frame, instr *ssa.Select) value {
 				s.c.buf = append(s.c.buf, copyVal(s.v))
 			}
 		} else {
-			if len(s.c.buf) > 0 || len(s.c.sendq) > 0 {
+			if len(s.c.buf) > 0 || len(s.c.sendq) > 0 || (s.c.always != nil && !s.c.closed) {
 				recvVal = s.c.take()
 				recvOk = true
 			}
